@@ -433,12 +433,15 @@ bool DependencyScan::RecomputeNodeDirty(Node* node, std::vector<Node*>* stack,
 
   bool dirty = false;
   edge->outputs_ready_ = true;
-  edge->deps_missing_ = false;
 
   const bool edge_deps_loaded = edge->deps_loaded_;
   if (!edge->deps_loaded_) {
     // This is our first encounter with this edge.
     edge->deps_loaded_ = true;
+    // Discovered deps are only loaded on this first visit, so this is also
+    // the only visit that may decide they are missing: a later re-scan
+    // (Plan::RefreshDyndepDependents) must not forget it.
+    edge->deps_missing_ = false;
 
     // If there is a pending dyndep file, visit it now:
     // * If the dyndep file is ready then load it now to get any
